@@ -105,7 +105,9 @@ LEVEL_NOTE = (
     "closure of the two-way edges (C06_exact_partition_before_connect); one-way edges, set_verified and queries change no class "
     "(C06_step_exact). The right-hand sides do not mention the set-iteration order, so every Boolean `equivalent` returns - in stale "
     "states too - is the same for any two iteration orders (C06_equivalent_order_independent): the comparison of Booleans on the "
-    "non-exact (sparse-label) half of the cases rests on a theorem, no longer on an empirical 0-mismatch."
+    "non-exact (sparse-label) half of the cases rests on a theorem, no longer on an empirical 0-mismatch. Consumer forms: "
+    "C06_same_is_scc / C06_repf_is_scc (the pure representative function decides 'same strongly connected component of the "
+    "recorded graph' after a detection followed by neutral operations) and C06_verified_scc."
 )
 
 SPARSE_POOL = [0, 1, 2, 3, 5, 8, 9, 16, 17, 24, 33, 64, 65, 100, 1000, 10**6, 2**40 + 3, -1, -2, -7]
